@@ -240,6 +240,16 @@ def minimise_and_write(prop, tier, item):
     def ex(c, o):
         return execute(engine, c, o, prop)[0]
     c2, o2, nexec = shrink(ex, cfg, ops, target, step=v0.get("step"))
+    # pin the one rejection cause that failed, so that the replay does not depend on what else the
+    # enumeration contains in a later version of the harness
+    cause = v0["detail"].get("cause") if isinstance(v0.get("detail"), dict) else None
+    if cause and o2 and o2[-1].get("op") == "reject_all" and not o2[-1].get("only"):
+        cand = o2[:-1] + [dict(o2[-1], only=[cause])]
+        try:
+            if any(vclass(x) == target for x in ex(c2, cand)):
+                o2 = cand
+        except Exception:
+            pass
     vs, w = execute(engine, c2, o2, prop)
     vm = next((x for x in vs if vclass(x) == target), None)
     if vm is None:  # shrinking lost it (should not happen): fall back to the original
